@@ -255,6 +255,7 @@ def r_unsolved_program(ctx):
                     return v
             return NotImplemented
         it = IndexInterp(env, on_call=on_call, check_asserts=True)
+        it.home = (repo, fn._module, o.kind)
         return it.run(fn.body)
 
     for solved in (False, True):
